@@ -30,7 +30,7 @@ func init() {
 		Modes: []Mode{{Name: "dead", Weight: 6}, {Name: "live", Weight: 4}},
 		Gen:   genC14, Run: runC14, Fixed: fixedC14,
 		QuickRuns: 5000, ThoroughRuns: 360000,
-		Rule: "plan = (transport, pingInterval, pingTimeout in 1..3 s, network latency/jitter/chunking, black-hole direction and instant | traffic script, stall parameters) from VERIF_SEED, " +
+		Rule: "[live mode also: WebSocket paths 3x-14x slower than the polling path, so that the upgrade lasts about one heartbeat period and the first ping falls into the switch-over] plan = (transport, pingInterval, pingTimeout in 1..3 s, network latency/jitter/chunking, black-hole direction and instant | traffic script, stall parameters) from VERIF_SEED, " +
 			"plus a fixed sweep of black-hole instants across one heartbeat period per transport and direction; non-trivial = the fault fired on an established session (dead) or >= 20 heartbeat rounds completed (live); " +
 			"distinct = distinct history digest among non-trivial runs",
 		Assumptions: []string{
